@@ -7,6 +7,7 @@ import (
 	"fmt"
 	"go/constant"
 	"go/token"
+	"go/types"
 	"sort"
 	"strings"
 	"unicode"
@@ -167,7 +168,7 @@ func runC01(c *Ctx) {
 				continue
 			}
 			okNorm := isConst && norm.Value.String() == "true"
-			okDict := core.LoadOfField(args[2], "/v2.Classifier", "dict")
+			okDict := isClsField(args[2], func(r *v2Roles) string { return r.dict })
 			c.R.Check(okNorm && okDict, "R01.1", key+" uses normalize=true and the classifier's dictionary", p.Pos(call.Pos()),
 				"tokenizeStream(_, true, c.dict, _)", "corpus and target must be tokenised identically (normalize=true, the classifier's dictionary): otherwise a verbatim copy does not produce the tokens of its source")
 		}
@@ -177,7 +178,8 @@ func runC01(c *Ctx) {
 	// R01.2
 	nc := p.Func(v2pkg, "NewClassifier")
 	if c.R.Anchor(nc != nil, "v2.NewClassifier") {
-		for _, fld := range []string{"threshold", "q"} {
+		rl := rolesOf(p)
+		for _, fld := range []string{rl.threshold, rl.q} {
 			writers := map[string]bool{}
 			for _, fn := range v2Funcs(p) {
 				for _, b := range fn.Blocks {
@@ -193,8 +195,8 @@ func runC01(c *Ctx) {
 			c.R.Check(len(writers) == 1 && writers["NewClassifier"], "R01.2", "Classifier."+fld+" is written only by NewClassifier", p.Pos(nc.Pos()), "single writer", fmt.Sprintf("written by %v: the value the corpus was indexed with can change afterwards", keysOf(writers)))
 		}
 		for _, lit := range structLits([]*ssa.Function{nc}, "/v2.Classifier") {
-			q, isCall := lit.fields["q"].(*ssa.Call)
-			ok := isCall && p.IsFn(q.Call.StaticCallee(), v2pkg, "computeQ") && q.Call.Args[0] == nc.Params[0] && lit.fields["threshold"] == nc.Params[0]
+			q, isCall := lit.fields[rl.q].(*ssa.Call)
+			ok := isCall && p.IsFn(q.Call.StaticCallee(), v2pkg, "computeQ") && q.Call.Args[0] == nc.Params[0] && lit.fields[rl.threshold] == nc.Params[0]
 			c.R.Check(ok, "R01.2", "NewClassifier stores threshold and q = computeQ(threshold) of the same argument", p.Pos(lit.alloc.Pos()), "threshold: t, q: computeQ(t)", "q is not derived from the stored threshold")
 		}
 	}
@@ -203,7 +205,7 @@ func runC01(c *Ctx) {
 		for _, call := range core.CallsIn(fn) {
 			if cal := call.Common().StaticCallee(); p.IsFn(cal, v2pkg, "(*indexedDocument).generateSearchSet") {
 				ng++
-				ok := core.LoadOfField(call.Common().Args[1], "/v2.Classifier", "q")
+				ok := isClsField(call.Common().Args[1], func(r *v2Roles) string { return r.q })
 				c.R.Check(ok, "R01.2", core.ShortFn(fn)+": search set built with the classifier's q", p.Pos(call.Pos()), "generateSearchSet(c.q)", "corpus and target q-grams are built with different q: their hashes can never be joined")
 			}
 		}
@@ -533,42 +535,63 @@ func runC06(c *Ctx) {
 	}
 	c.R.RequireMin("R03.7", "Copyright Match literals", n, 1)
 
-	// R06.4 normalizeToken
-	if nt := p.Func(v2pkg, "normalizeToken"); c.R.Anchor(nt != nil, "v2.normalizeToken") {
-		ok, why := false, "normalizeToken does not return a replace-all of its argument"
-		for _, b := range nt.Blocks {
-			ret, isRet := b.Instrs[len(b.Instrs)-1].(*ssa.Return)
-			if !isRet || len(ret.Results) != 1 {
-				continue
-			}
-			call, isCall := ret.Results[0].(*ssa.Call)
-			if !isCall {
-				why = "a path returns " + ret.Results[0].String() + " instead of the rewritten token"
-				ok = false
-				break
-			}
-			n := core.StaticCalleeName(&call.Call)
-			all := n == "strings.ReplaceAll"
-			if n == "strings.Replace" {
-				if k, isK := core.ConstInt(call.Call.Args[3]); isK && k < 0 {
-					all = true
+	// R06.4 the scheme rewrite (in normalizeToken, or wherever it was inlined)
+	{
+		var sites []*ssa.Call
+		var fns []*ssa.Function
+		fb := p.Func(v2pkg, "flushBuf")
+		if nt := p.Func(v2pkg, "normalizeToken"); nt != nil {
+			fns = append(fns, nt)
+		}
+		if fb != nil {
+			fns = append(fns, fb)
+		}
+		okAll, why := true, ""
+		for _, fn := range fns {
+			for _, call := range core.CallsIn(fn) {
+				cv, isCall := call.(*ssa.Call)
+				if !isCall {
+					continue
+				}
+				n := core.StaticCalleeName(&cv.Call)
+				if n != "strings.ReplaceAll" && n != "strings.Replace" {
+					continue
+				}
+				from, ok1 := core.ConstString(cv.Call.Args[1])
+				to, ok2 := core.ConstString(cv.Call.Args[2])
+				if !ok1 || !ok2 || !strings.Contains(from, "http") {
+					continue
+				}
+				sites = append(sites, cv)
+				if n == "strings.Replace" {
+					if k, isK := core.ConstInt(cv.Call.Args[3]); !isK || k >= 0 {
+						okAll, why = false, "strings.Replace with a non-negative count does not rewrite every occurrence in the token"
+					}
+				}
+				if strings.Contains(to, from) {
+					okAll, why = false, fmt.Sprintf("replacing %q by %q is not idempotent", from, to)
+				}
+				// the rewritten string must be what the function hands on (returned or interned), on every path
+				if fn.Signature.Results().Len() == 1 && isString(fn.Signature.Results().At(0).Type()) {
+					for _, b := range fn.Blocks {
+						if ret, isRet := b.Instrs[len(b.Instrs)-1].(*ssa.Return); isRet && len(ret.Results) == 1 && ret.Results[0] != ssa.Value(cv) {
+							okAll, why = false, "a path returns "+ret.Results[0].String()+" instead of the rewritten token"
+						}
+					}
 				}
 			}
-			if !all || call.Call.Args[0] != nt.Params[0] {
-				why = "the rewrite is " + n + ", which does not replace every occurrence in the token"
-				ok = false
-				break
-			}
-			from, _ := core.ConstString(call.Call.Args[1])
-			to, _ := core.ConstString(call.Call.Args[2])
-			if strings.Contains(to, from) {
-				why = fmt.Sprintf("replacing %q by %q is not idempotent", from, to)
-				ok = false
-				break
-			}
-			ok, why = true, fmt.Sprintf("strings.ReplaceAll(in, %q, %q)", from, to)
 		}
-		c.R.Check(ok, "R06.4", "normalizeToken rewrites every occurrence of the scheme inside a token, idempotently", p.Pos(nt.Pos()), why, why+": a URL whose scheme is not at the start of the token (e.g. \"(https://...\") is not normalised")
+		pos := "v2/tokenizer.go"
+		if len(sites) > 0 {
+			pos = p.Pos(sites[0].Pos())
+		}
+		if len(sites) == 0 {
+			okAll, why = false, "no replace-all of the https scheme is applied to a word before it is interned"
+		}
+		if okAll {
+			why = fmt.Sprintf("%d strings.ReplaceAll site(s) on the word that is interned", len(sites))
+		}
+		c.R.Check(okAll, "R06.4", "every occurrence of the https scheme inside a token is rewritten, idempotently", pos, why, why+": a URL whose scheme is not at the start of the token (e.g. \"(https://...\") is not normalised")
 	}
 
 	// R06.5 token text provenance
@@ -703,7 +726,7 @@ func checkPseudoMatchSegregation(c *Ctx, p *core.Prog) {
 		if ct, ok := src.(*ssa.ChangeType); ok {
 			src = ct.X
 		}
-		if core.LoadOfField(src, "/v2.indexedDocument", "Matches") {
+		if isDocField(src, func(r *v2Roles) string { return r.matches }) {
 			mixes = true
 			mixPos = call.Pos()
 		}
@@ -1140,4 +1163,9 @@ func sliceFamilyThrough(v ssa.Value) map[ssa.Value]bool {
 	}
 	walk(v)
 	return fam
+}
+
+func isString(t types.Type) bool {
+	b, ok := t.Underlying().(*types.Basic)
+	return ok && b.Info()&types.IsString != 0
 }
